@@ -32,7 +32,7 @@ def gen(tier, seed):
         nseg = rnd.randint(1, 8)
         dim = rnd.choice((2, 2, 3))
         ks, P = polyline(rnd, nseg, dim)
-        mode = rnd.choice(["off", "off", "vertex", "interior", "tie", "far"])
+        mode = rnd.choice(["off", "off", "vertex", "interior", "tie", "far", "thin"])
         k = rnd.randrange(nseg)
         if mode == "vertex":
             x = list(P[rnd.randrange(nseg + 1)])
@@ -46,11 +46,20 @@ def gen(tier, seed):
             ks = [F(j) for j in range(len(P))]
             d = F(rnd.randint(1, 3), 4) * h
             x = [h - d, d] if d < h else [h / 2, h / 2]
+        elif mode == "thin":
+            # a thin V: the second leg passes within about 5e-4 of a point of the first leg (distances that differ by
+            # more than 1e-6 although their squares differ by less)
+            h = rnd.choice([F(1, 1024), F(1, 2048), F(3, 4096)])
+            L = F(rnd.randint(1, 4))
+            P = [[F(0), F(0)], [L, F(0)], [F(0), h * L]] + ([[F(-1), F(2)]] if rnd.random() < 0.5 else [])
+            ks = [F(0), F(1), F(3)] + ([F(4)] if len(P) == 4 else [])
+            x = [L * F(rnd.randint(1, 7), 8), F(0)]
         elif mode == "far":
             x = [F(rnd.randint(-400, 400), 4) for _ in range(dim)]
         else:
             x = [F(rnd.randint(-40, 40), 8) for _ in range(dim)]
-        cases.append({"ks": fsl(ks), "P": pts_json(P), "x": fsl(x), "mode": mode, "nseg": len(P) - 1, "dim": len(x)})
+        cases.append({"ks": fsl(ks), "P": pts_json(P), "x": fsl(x), "mode": mode, "nseg": len(P) - 1, "dim": len(x),
+                      "elevate": rnd.random() < 0.25})
     return cases
 
 
@@ -63,6 +72,8 @@ def impl(case):
     P = [np.array([float(v) for v in nums(pt)]) for pt in case["P"]]
     U = [ks[0]] + ks + [ks[-1]]
     curve = Curve(U, P)
+    if case.get("elevate"):
+        curve.degree_increase(1)        # the same polyline stored with a higher degree
     before = (tuple(curve.knotvector), tuple(map(tuple, curve.ctrlpoints)))
     x = [float(v) for v in nums(case["x"])]
     r = capture(lambda: [out_num(t) for t in Projection.point_on_curve(x, curve)], seconds=case.get("timeout", 20))
